@@ -70,5 +70,15 @@ def toResponse (e : HttpError) : Response :=
   | unsupportedProtocol => Response.text 505 e.description
   | _ => Response.text 500 (str "Internal server error")
 
+/-- `impl From<std::io::Error> for Response`: of all error kinds only `InvalidData` (unparsable request data) is the client's
+    fault; the error's own text is never used. -/
+def ofIoError (invalidData : Bool) (_text : Bytes) : Response :=
+  if invalidData then Response.text 400 (str "Bad request") else Response.text 500 (str "Internal server error")
+
+/-- The response `log_response(Err(e))` hands back: the one the handler attached to the error, else an empty 500.
+    The error's message and tags go to the log only. -/
+def ofLogError (attached : Option Response) (_msg : Option Bytes) : Response :=
+  attached.getD (Response.new 500)
+
 end HttpError
 end Servlin
